@@ -68,7 +68,10 @@ def register(reg, repo):
               labels={"intcmp": True}))
     reg.add(C(T + "to_str", modifies=["_name"], post=[], xpost=None, returns_type="str",
               calls={"core_inspection.get_full_name": "qcore.inspection.get_full_name"},
-              note="the RuntimeError handler covers recursive reprs of args/kwargs"))
+              labels={"format_user_repr": True, ("xpost", 0): "name-never-raises-even-if-an-argument-repr-does"},
+              note="%r of the task's args/kwargs runs user __repr__ code, modelled as raising any Exception (label format_user_repr): "
+                   "the task's name is computed by profiling (COLLECT_PERF_STATS) and by every dump, so it must not fail when an "
+                   "argument's repr does"))
     reg.add(C(T + "dump!virtual", params=["self", "indent"], defaults={"indent": "0"}, kind="method", modifies=[], trusted=True,
               post=[], xpost=None, note="dump of a dependency (recursion depth bounded by MAX_DUMP_INDENT)"))
     reg.add(C(T + "dump", modifies=[], post=[], xpost=None, types={"dependency": "FutureBase", "indent": "int"},
